@@ -68,11 +68,13 @@ CHECKS = {
    note=CORE_NOTE + " The data-race clause is outside TLA+: the thorough tier re-runs the random scenarios under the Go race detector as an observation channel.",
    design_ref="DESIGN.md section 6 C09"),
  "C10": dict(
-   technique="TLA+ specs TallyObs.tla (timer windows) and Instrument.tla (stopwatch, Exec) checked by TLC; traces of the real code validated by TLC",
+   technique="TLA+ specs TallyObs.tla (timer windows), Instrument.tla (stopwatch, Exec) and TimerSink.tla (concurrent append to a reporter-less timer) checked by TLC; traces of the real code validated by TLC",
    text=("Timer records from two goroutines interleaved with passes, the loop and root Close under the controlled scheduler: every Record window must contain exactly one "
          "synchronous delivery of the same identity and duration, none outside. Instrument.tla is model-checked (with three weakenings shown to be caught) and random "
          "tick/Start/Stop/Exec histories over a harness-driven clock are replayed through its actions: Stop records exactly clock(Stop)-clock(Start), Exec runs once, one "
-         "latency, exactly the matching outcome counter, same error value."),
+         "latency, exactly the matching outcome counter, same error value. TimerSink.tla models the append of a reporter-less timer as the two-step critical section it is (a sink "
+         "without mutual exclusion between appenders is shown to lose a value); free-running histories - 2-6 goroutines recording distinct durations on one shared timer while passes / "
+         "snapshots run, on a test scope, a plain and a cached reporter - are compared with what Snapshot().Timers() / the reporter holds afterwards (TimerSinkTrace.tla)."),
    note=CORE_NOTE, design_ref="DESIGN.md section 6 C10"),
  "C03": dict(
    technique="TLA+ spec (Histogram.tla) model-checked by TLC; traces of the real histogram code validated by TLC against HistogramTrace.tla",
@@ -120,11 +122,11 @@ CHECKS = {
          "no deadlock (ENABLED-based), at most one nil from Close, late calls enqueue nothing, the reporter's goroutines have ended when Close returns, pending returns to 0; five weakenings (pending++ after "
          "the done check, Close without the spin, Flush ignoring done, a second nil from Close, the done path leaking pending) are each shown to violate their clause. The real reporter is driven through "
          "every interleaving of the hook points of that protocol (1 producer x Close + late report; x 2 closers; Flush x Close; 2 producers x Close) and random schedules of larger mixes (4 kinds of "
-         "metrics, Flush, 1-2 closers, queue 1..4096, both protocols, 1 and 3 destinations, no Close at all); panics, deadlocks (incl. a Close that spins while nobody else moves), leaked goroutines and "
+         "metrics, Flush, 1-2 closers, queue 1..4096, both protocols, 1 and 3 destinations, a first destination nobody listens on with a queue of one entry (send errors), no Close at all); panics, deadlocks (incl. a Close that spins while nobody else moves), leaked goroutines and "
          "unbalanced pending are observed per execution and judged by TLC."),
    note=("Trusted: the controlled scheduler (code between two verif hooks of one goroutine is atomic w.r.t. the other scenario goroutines; the reporter's clock goroutine has no hooks and runs freely), "
          "loopback UDP sinks and the repository's own thrift decoder as observation of what was emitted, recover() / goroutine dumps as observation of panics and leaks, TLC. "
-         "DFS is exhaustive over thread choices at the listed handshake points only; larger mixes are seeded random schedules.") + " Data-race freedom is not decided (not expressible in TLA+).",
+         "DFS is exhaustive over thread choices at the listed handshake points only; larger mixes are seeded random schedules.") + " Data-race freedom is not expressible in TLA+: the free-running conformance drivers (producers of all kinds incl. several goroutines on one value / duration bucket handle, concurrent Allocate*, Flush, concurrent Close, both protocols, reachable and unreachable destinations) are re-run as a `go build -race` binary and a race report touching the m3 packages is a violation (clause DataRace); a hang of those drivers is reported with the stacks of the goroutines inside the m3 package (clause NoDeadlock).",
    design_ref="DESIGN.md section 6 C14"),
  "C15": dict(
    technique="TLA+ spec UDPTransport.tla (per-destination buffer / closed / dead socket, multi fan-out, writer's view of the message as ghost state) checked by TLC; call and fault histories on the real transports against loopback UDP sinks validated by TLC against UDPTransportTrace.tla",
@@ -145,7 +147,7 @@ CHECKS = {
          "itself is bound to the code by conformance: for every enumerated shape (all varint classes of every integer field, string lengths 0..1024 of random bytes, tag lists around the 14/15 "
          "list-header switch, batches of 0..16 (500) metrics, all sequence-id lengths) a concrete value is encoded through one reused real encoder, measured through one reused TCalcTransport "
          "protocol, sent through the generated client and decoded; TLC requires encoder length = calculator count = the model's function of the shape, also right after an abandoned write, "
-         "round-trip equality, and that the size the real reporter charges at allocation equals the kind-maximal size of the shape (incl. the two bucket tags)."),
+         "round-trip equality, and that the size the real reporter charges at allocation equals the kind-maximal size of the shape (incl. the two bucket tags), also for ~10^5 handles allocated by 16 goroutines at the same time (size measurement under a lock through one reused protocol)."),
    note=("Trusted: the harness's construction of a concrete value for a shape (own varint-length functions), its equality predicate for the round trip (floats by bit pattern, nil vs empty tag list), TLC. "
          "The byte content of the encoding is observed (decode with the repository's own readers), not predicted by the model - stated in DESIGN.md section 7."),
    design_ref="DESIGN.md section 6 C16"),
